@@ -772,6 +772,9 @@ func dupInsert(t *rapid.T, tables []TableSpec) *Stmt {
 	return nil
 }
 
+// DupInsert is dupInsert for other packages.
+func DupInsert(t *rapid.T, tables []TableSpec) *Stmt { return dupInsert(t, tables) }
+
 func (b *sqlBuilder) freshKey(tb TableSpec, c ColSpec, r int) Lit {
 	n := int64(100 + r + 10*rapid.IntRange(0, 9).Draw(b.t, "fresh"))
 	if c.Base == "VARCHAR" {
